@@ -1,13 +1,19 @@
 """C11 — batch windows stay in range, tile the sequence and link consistently.
 
 Monitor: a dtml-in body that prints, per displayed element, its number, the element and
-every previous-/next-sequence variable; a postcondition wrapper on the real ``opt``.
+every previous-/next-sequence variable; a postcondition wrapper on the real ``opt`` (diagnosis).
 Oracle: window model written from the DT_In docstring and the property statement;
 traversal laws are run by following the links the engine itself printed.
+Configurations (vlib/c11_util.py): the same window is also requested and read through variant
+templates -- prefix spelling, sparse / documented-idiom / nested bodies, expr forms, item kinds,
+literal / variable / absent attributes -- with int, text or callable parameter values, each compiled
+template re-rendered with changing values; all are reduced to the same 14-field records and judged by
+the same model.  Every recorded case carries the last calls of its compiled template (replay repeats
+them), and a violating window is re-rendered on a fresh compile to tell history-dependent faults apart.
 """
 import itertools
 
-from vlib.common import ProbeIter
+from vlib import c11_util as U
 
 ID = 'C11'
 LEVEL = 'exploration'
@@ -15,10 +21,32 @@ RULE = ('exhaustive grid over (length,start,end,size,orphan,overlap) passed thro
         '(one compiled template), a literal-attribute sample, previous/next attribute modes, '
         'seeded larger tuples, and link-following traversals; a case is non-trivial when the '
         'sequence is non-empty and at least one batch parameter is effective (>0); distinct = '
-        'distinct (mode,length,start,end,size,orphan,overlap,container) tuples')
+        'distinct (mode,length,start,end,size,orphan,overlap,container[,configuration,value forms]) tuples. '
+        'Every grid point and every larger tuple is rendered a second time through one of 20 long-lived '
+        'variant templates (vlib/c11_util.designed_cfgs: a twin of the main source, prefix= with the 14 '
+        'variables read through the prefix spelling wholly / flags only / all but flags / alternating / not at '
+        'all, link variables read only inside <dtml-if next-sequence> or only inside <dtml-if sequence-end> '
+        '(documented idiom, entity syntax), a second batched dtml-in nested in the body (also one whose body '
+        'raises into a dtml-try of the outer body), expr forms of the '
+        'sequence, mapping / (key,value) / object / text items, no_push_item, absent attributes), chosen by '
+        'ctx.rng, with the value FORM of each variable-named parameter drawn per render (int, text as a query '
+        'string delivers it, callable returning either): the same compiled template is therefore re-rendered '
+        'with changing text values.  A 1/16 sample of grid points is rendered through a random configuration '
+        '(each parameter literal / variable / absent, quoted or not, attribute order, sequence form, prefix and '
+        'spelling mask, body layout, item kind).  Half of the link traversals run on a variant template and '
+        'feed the printed next-sequence-start-number back as text.  The previous/next attribute forms are '
+        'rendered with dashed or prefix-spelled variables and int or text values.  All of them are reduced to '
+        'the same 14-field record per displayed element and judged by the one window model.')
 ASSUMPTIONS = ['start/end <= 0 and size < 1 mean "not given" (DT_In docstring, int_param)',
                'where only `end` is given the statement does not fix `start`: only range, '
-               'contiguity, end=min(end,length) and the link equations are demanded']
+               'contiguity, end=min(end,length) and the link equations are demanded',
+               'the value of a variable-named parameter is an int, the decimal text of one (DT_In docstring: '
+               'batch_start arrives in the query string) or a callable returning either (namespace lookups '
+               'call callables); no other value types are demanded',
+               'prefix=p offers sequence-x as p_x and every other variable y-z as p_y_z (pinned test '
+               'test__setitem__getitem__, property C10); both spellings must show the same window and links',
+               'the opt postcondition wrapper and the sys.monitoring anchors are diagnosis only: '
+               'inconclusive is decided from the output-level comparisons']
 SHARD_TIMEOUT = {'quick': 600, 'thorough': 3000}
 
 BODY = ('[<dtml-var sequence-number>|<dtml-var sequence-item>|<dtml-var sequence-start>|'
@@ -106,7 +134,12 @@ class OptMonitor:
     def install(self):
         from DocumentTemplate import DT_In
         from DocumentTemplate import DT_InSV
-        real = DT_InSV.opt
+        self.icontract = None
+        real = getattr(DT_InSV, 'opt', None)
+        if real is None or getattr(DT_In, 'opt', None) is not real:
+            # the helper was renamed / rebound: the output-level oracle still decides
+            self.ctx.count('opt:wrapper not installed (diagnosis only)')
+            return
         self.real = real
         ctx = self.ctx
         bad = self.bad
@@ -155,25 +188,45 @@ class OptMonitor:
 
 
 # ---------------------------------------------------------------- one render
-def check_window(ctx, mon, tmpl, mode, length, st, en, sz, orp, ovl, container, literal_src=None):
+def render(T, seq, vals, forms):
+    if T.literal:
+        return T.tmpl(seq=seq)
+    if T.cfg is None:
+        st, en, sz, orp, ovl = vals
+        return T.tmpl(seq=seq, st=st, en=en, sz=sz, orp=orp, ovl=ovl)
+    return T.tmpl(seq=seq, inner=list(U.INNER), **U.namespace(vals, forms))
+
+
+def call_record(length, vals, container, forms):
+    return {'length': length, 'vals': list(vals), 'container': container, 'forms': forms}
+
+
+def check_window(ctx, mon, T, mode, length, st, en, sz, orp, ovl, container, forms='iiiii'):
+    cfg = T.cfg
+    vals = (st, en, sz, orp, ovl)
     case = {'mode': mode, 'length': length, 'start': st, 'end': en, 'size': sz,
             'orphan': orp, 'overlap': ovl, 'container': container}
-    if literal_src:
-        case['src'] = literal_src
+    if T.literal:
+        case['src'] = T.src
+    if cfg is not None:
+        case.update(cfg=cfg, forms=forms, variant=T.name, src=T.src)
+    if T.hist:
+        # earlier calls of the same compiled template (replay repeats them first)
+        case['history'] = list(T.hist)
     nontriv = length > 0 and (st > 0 or en > 0 or sz > 0)
-    ctx.case((mode, length, st, en, sz, orp, ovl, container), nontriv)
-    if container == 'list':
-        seq = list(range(1, length + 1))
-    elif container == 'tuple':
-        seq = tuple(range(1, length + 1))
+    if cfg is None:
+        ctx.case((mode, length, st, en, sz, orp, ovl, container), nontriv)
     else:
-        seq = ProbeIter(length, budget=length + 200)
+        ctx.case((mode, length, st, en, sz, orp, ovl, container, U.cfg_key(cfg), forms), nontriv)
+    kind = cfg['items'] if cfg else 'int'
+    seq = U.make_seq(length, container, kind)
     del mon.bad[:]
+    T.hist.append(call_record(length, vals, container, forms))
+    T.renders += 1
+    if cfg is not None:
+        note_variant(ctx, T, vals, forms)
     try:
-        if literal_src:
-            out = tmpl(seq=seq)
-        else:
-            out = tmpl(seq=seq, st=st, en=en, sz=sz, orp=orp, ovl=ovl)
+        out = render(T, seq, vals, forms)
     except Exception as e:
         mech = None
         ctx.violation('batched render raised %s: %s' % (type(e).__name__, str(e)[:120]),
@@ -188,15 +241,24 @@ def check_window(ctx, mon, tmpl, mode, length, st, en, sz, orp, ovl, container, 
         if out != 'EMPTY':
             ctx.violation('empty sequence did not render the else body: %r' % out[:80], case)
         return None
+    problems = []
+    raw = out
     try:
+        if cfg is not None and cfg['layout'] in U.NESTED:
+            out, inner = U.split_nested(out)
+            want_inner = U.INNER_OUT[cfg['layout']]
+            if [x for x in inner if x != want_inner]:
+                problems.append('the nested batch over 5 elements (start=2 size=2) rendered %r, expected %r'
+                                % ([x for x in inner if x != want_inner][0][:40], want_inner))
         recs = parse(out)
+        if cfg is not None and cfg['layout'] in U.NESTED and len(inner) != len(recs):
+            problems.append('%d nested-loop outputs for %d displayed elements' % (len(inner), len(recs)))
     except ValueError as e:
-        ctx.violation(str(e), case)
+        ctx.violation(str(e), case, detail={'output': raw[:600]})
         return None
     nums = [int(r[0]) for r in recs]
     items = [int(r[1]) for r in recs]
     s, e = nums[0], nums[-1]
-    problems = []
     if nums != list(range(s, e + 1)):
         problems.append('non-contiguous run %r' % nums)
     if items != nums:
@@ -210,6 +272,9 @@ def check_window(ctx, mon, tmpl, mode, length, st, en, sz, orp, ovl, container, 
         problems.append('window start %d, expected %d' % (s, ms))
     if only_end:
         ctx.count('window:only end given (start unconstrained)')
+    # which way the window was requested (output-level twin of the opt branch counters)
+    ctx.count('window:asked with ' + ('start&end' if st > 0 and en > 0 else 'start only' if st > 0
+                                       else 'end only' if en > 0 else 'neither'))
     last = len(recs) - 1
     for i, r in enumerate(recs):
         if truthy(r[2]) != (i == 0):
@@ -254,10 +319,28 @@ def check_window(ctx, mon, tmpl, mode, length, st, en, sz, orp, ovl, container, 
                 ctx.count('links:previous equation demanded')
                 if pe != s - 1 + ovl:
                     problems.append('previous batch ends at %s, expected start-1+overlap=%d' % (pe, s - 1 + ovl))
+    if cfg is not None:
+        note_judged(ctx, T, cfg, s, e, length)
     if problems:
-        ctx.violation('; '.join(problems[:4]), case,
+        detail = {'output': raw[:600]}
+        what = '; '.join(problems[:4])
+        if cfg is not None:
+            what = '[%s %s forms=%s] ' % (T.name, U.cfg_key(cfg), forms) + what
+        if T.renders > 1:
+            # diagnosis: does a fresh compile of the same source show the same thing for the same values?
+            try:
+                from DocumentTemplate.DT_HTML import HTML
+                fresh = render(U.T(HTML, T.src, cfg=cfg, literal=T.literal), U.make_seq(length, container, kind),
+                               vals, forms)
+            except Exception as ex:
+                fresh = 'raised %s' % type(ex).__name__
+            if fresh != raw:
+                what += ' -- depends on the earlier renders of this compiled template (see history): a fresh ' \
+                        'compile of the same source renders %r' % fresh[:120]
+                detail['fresh_compile_output'] = fresh[:600]
+        ctx.violation(what, case,
                       key='win_%s_%d_%d_%d_%d_%d_%d' % (mode, length, st, en, sz, orp, ovl),
-                      detail={'output': out[:600]})
+                      detail=detail)
     ctx.count('window:rendered')
     step = int(recs[0][12])
     if not problems and mode in ('vars', 'rand') and mon.mode_templates:
@@ -267,22 +350,74 @@ def check_window(ctx, mon, tmpl, mode, length, st, en, sz, orp, ovl, container, 
     return s, e, nxt, prv, step
 
 
+def note_variant(ctx, T, vals, forms):
+    """Evidence for the value-form and history classes (counted before the render)."""
+    cfg = T.cfg
+    how = cfg['how']
+    text = tuple((k, vals[k]) for k in range(5) if how[k] == 'V' and forms[k] in 'sC')
+    if text:
+        ctx.count('forms:renders with a text-valued parameter')
+        if T.last_text is not None and any(dict(T.last_text).get(k, v) != v for k, v in text):
+            ctx.count('forms:re-render of one compiled template with a changed text value')
+        T.last_text = text
+    if any(how[k] == 'V' and forms[k] in 'cC' for k in range(5)):
+        ctx.count('forms:renders with a callable-valued parameter')
+    if 'L' in how or 'A' in how:
+        ctx.count('config:renders with literal or absent attributes')
+
+
+def note_judged(ctx, T, cfg, s, e, length):
+    ctx.count('variants:windows judged')
+    ctx.table('variant windows judged', T.name if T.name != 'random' else 'random configuration')
+    ctx.count('layout:%s windows judged' % cfg['layout'])
+    if cfg['prefix'] and cfg['mask']:
+        ctx.count('prefix:windows judged through the prefix spelling')
+        if cfg['mask'] & U.FLAG_BITS and e > s and (e < length or s > 1):
+            ctx.count('prefix:flags read through the prefix spelling on a window of >=2 elements with a neighbour')
+    if cfg['seqform'] in ('shorthand', 'expr='):
+        ctx.count('config:expression form of the sequence')
+    if cfg['items'] != 'int':
+        ctx.count('config:non-int items (%s)' % cfg['items'])
+
+
+def mode_source(m, prefix):
+    """<dtml-in seq previous|next ...>: the body once iff such a batch exists; variables dashed or prefix-spelled."""
+    names = ['%s-sequence' % m, '%s-sequence-start-number' % m, '%s-sequence-end-number' % m,
+             '%s-sequence-size' % m, '%s-sequence-start-index' % m, '%s-sequence-end-index' % m]
+    body = 'B' + ''.join('|<dtml-var %s>' % U.spelled(n, prefix, True) for n in names)
+    return ('<dtml-in seq %s start=st end=en size=sz orphan=orp overlap=ovl%s>%s<dtml-else>NONE</dtml-in>'
+            % (m, ' prefix=%s' % prefix if prefix else '', body))
+
+
+def make_mode_templates(HTML):
+    assert all(mode_source(m, None) == SRC_MODE[m] for m in SRC_MODE)
+    return {(m, p): HTML(mode_source(m, p)) for m in ('previous', 'next') for p in (None, 'p')}
+
+
 def check_modes(ctx, mon, case, length, s, e, prev_ann, next_ann):
     """<dtml-in seq previous ...> / <dtml-in seq next ...> with the same parameters: the body once iff the
     window (as the plain rendering showed it, already judged against the model) has a neighbour on that side,
-    announcing the same neighbour as the plain rendering did, with size = end+1-start and index = number-1."""
+    announcing the same neighbour as the plain rendering did, with size = end+1-start and index = number-1.
+    Spelling (dashed / prefix) and value form (int / text) are a function of the parameters (replayable)."""
+    vals = (case['start'], case['end'], case['size'], case['orphan'], case['overlap'])
+    k = (length * 7 + vals[0] * 5 + vals[1] * 3 + vals[2] * 2 + vals[3] + vals[4]) % 4
+    prefix = 'p' if k & 1 else None
+    forms = 'sssss' if k & 2 else 'iiiii'
     for m, ann in (('previous', prev_ann), ('next', next_ann)):
         seq = list(range(1, length + 1)) if case['container'] != 'tuple' else tuple(range(1, length + 1))
-        c2 = dict(case, mode=m)
+        c2 = dict(case, mode=m, mode_prefix=prefix, mode_forms=forms)
         try:
-            out = mon.mode_templates[m](seq=seq, st=case['start'], en=case['end'], sz=case['size'],
-                                        orp=case['orphan'], ovl=case['overlap'])
+            out = mon.mode_templates[m, prefix](seq=seq, **U.namespace(vals, forms))
         except Exception as ex:
             ctx.violation('%s-attribute render raised %s: %s' % (m, type(ex).__name__, str(ex)[:120]), c2,
                           key='mode_raise_%s_%d_%d_%d_%d_%d_%d' % (m, length, case['start'], case['end'],
                                                                 case['size'], case['orphan'], case['overlap']))
             continue
         ctx.count('modes:%s attribute renders' % m)
+        if prefix:
+            ctx.count('modes:renders read through the prefix spelling')
+        if k & 2:
+            ctx.count('modes:renders with text-valued parameters')
         if ann is None:
             want = 'NONE'
         else:
@@ -291,17 +426,25 @@ def check_modes(ctx, mon, case, length, s, e, prev_ann, next_ann):
             ctx.count('modes:%s batch announced' % m)
         if out != want and not (ann is not None and out.startswith('B|') and
                                 [truthy(out.split('|')[1])] + out.split('|')[2:] == [True] + want.split('|')[2:]):
-            ctx.violation('<dtml-in seq %s ...> rendered %r, the plain rendering of the same window %d..%d of %d '
-                          'announces %r' % (m, out[:80], s, e, length, want), c2,
+            ctx.violation('<dtml-in seq %s ...%s> (values as %s) rendered %r, the plain rendering of the same '
+                          'window %d..%d of %d announces %r'
+                          % (m, ' prefix=p' if prefix else '', 'text' if k & 2 else 'int', out[:80], s, e, length,
+                             want), c2,
                           key='mode_%s_%d_%d_%d_%d_%d_%d' % (m, length, case['start'], case['end'], case['size'],
                                                           case['orphan'], case['overlap']))
 
 
 # ---------------------------------------------------------------- traversal
-def traverse(ctx, mon, tmpl, length, sz, orp, ovl, container):
-    """Follow next links from 1, then previous links back; bounded walks."""
+def traverse(ctx, mon, T, length, sz, orp, ovl, container, forms='iiiii'):
+    """Follow next links from 1, then previous links back; bounded walks.  The link printed by the engine is fed
+    back as the next start in the value form given (text = the way a query string delivers it)."""
     case = {'mode': 'traverse', 'length': length, 'size': sz, 'orphan': orp, 'overlap': ovl,
             'container': container}
+    if T.cfg is not None:
+        case.update(cfg=T.cfg, forms=forms, variant=T.name, src=T.src)
+        ctx.count('traversals on a variant template')
+        if 's' in forms or 'C' in forms:
+            ctx.count('traversals feeding the link back as text')
     ctx.count('traversals')
     windows = []
     st = 1
@@ -312,7 +455,7 @@ def traverse(ctx, mon, tmpl, length, sz, orp, ovl, container):
             ctx.violation('next-link walk did not terminate within length+2 hops', case,
                           key='trav_loop_%d_%d_%d_%d' % (length, sz, orp, ovl))
             return
-        r = check_window(ctx, mon, tmpl, 'trav', length, st, 0, sz, orp, ovl, container)
+        r = check_window(ctx, mon, T, 'trav', length, st, 0, sz, orp, ovl, container, forms)
         if r is None:
             return
         s, e, nxt, prv, step = r
@@ -354,7 +497,7 @@ def traverse(ctx, mon, tmpl, length, sz, orp, ovl, container):
         if not prv < st:
             probs.append('previous link %d does not move back from %d' % (prv, st))
             break
-        r = check_window(ctx, mon, tmpl, 'trav', length, prv, 0, sz, orp, ovl, container)
+        r = check_window(ctx, mon, T, 'trav', length, prv, 0, sz, orp, ovl, container, forms)
         if r is None:
             return
         st, prv = r[0], r[3]
@@ -377,20 +520,58 @@ def literal_source(st, en, sz, orp, ovl):
     return ' '.join(parts) + '>' + BODY + '<dtml-else>EMPTY</dtml-in>'
 
 
+class Variants:
+    """The long-lived variant templates of one shard and the cache of random configurations."""
+
+    def __init__(self, HTML, rng):
+        self.HTML = HTML
+        self.rng = rng
+        self.fixed = [U.T(HTML, U.build_source(cfg, (0, 0, 0, 0, 0)), cfg=cfg, name=name)
+                      for name, cfg in U.designed_cfgs()]
+        self.absent = [t for t in self.fixed if 'A' in t.cfg['how']]
+        self.cache = {}
+
+    def pick(self, vals):
+        """A designed variant that can take these values (absent attributes need default values)."""
+        if self.rng.random() < 0.25:
+            c = [t for t in self.absent if U.applicable(t.cfg, vals)]
+            if c:
+                return self.rng.choice(c)
+        t = self.rng.choice(self.fixed)
+        return t if U.applicable(t.cfg, vals) else self.fixed[0]
+
+    def random(self, vals):
+        cfg = U.normalise(U.random_cfg(self.rng), vals)
+        src = U.build_source(cfg, vals)
+        t = self.cache.get(src)
+        if t is None:
+            if len(self.cache) > 2000:
+                self.cache.clear()
+            t = self.cache[src] = U.T(self.HTML, src, cfg=cfg, name='random')
+        return t
+
+    def container(self):
+        return self.rng.choice(['list', 'list', 'tuple', 'iter'])
+
+
 def run(ctx, spec):
     from DocumentTemplate.DT_HTML import HTML
     from DocumentTemplate import DT_In, DT_InSV
     from vlib.reach import Reach
     reach = Reach()
-    reach.watch('DT_InSV.opt', DT_InSV.opt)
-    reach.watch('InClass.renderwb', DT_In.InClass.renderwb)
-    reach.watch('sequence_variables.__getitem__', DT_InSV.sequence_variables.__getitem__)
+    for label, owner, attr in (('DT_InSV.opt', DT_InSV, 'opt'), ('InClass.renderwb', DT_In.InClass, 'renderwb'),
+                               ('sequence_variables.__getitem__', DT_InSV.sequence_variables, '__getitem__')):
+        f = getattr(owner, attr, None)
+        if f is not None:
+            reach.watch(label, f)
     reach.start()
     mon = OptMonitor(ctx)
     mon.install()
-    tmpl = HTML(SRC_VARS)
-    tmpl.cook()
-    mon.mode_templates = {m: HTML(src) for m, src in SRC_MODE.items()}
+    tmpl = U.T(HTML, SRC_VARS)
+    tmpl.tmpl.cook()
+    mon.mode_templates = make_mode_templates(HTML)
+    rng = ctx.rng
+    var = Variants(HTML, rng)
     g = GRID[ctx.tier]
     space = itertools.product(g['length'], g['start'], g['end'], g['size'], g['orphan'], g['overlap'])
     lit_cache = {}
@@ -399,6 +580,9 @@ def run(ctx, spec):
             continue
         container = 'iter' if i % 8 == 3 else ('tuple' if i % 8 == 5 else 'list')
         check_window(ctx, mon, tmpl, 'vars', n, st, en, sz, orp, ovl, container)
+        # the same grid point through one of the variant templates, values in a drawn form
+        check_window(ctx, mon, var.pick((st, en, sz, orp, ovl)), 'variant', n, st, en, sz, orp, ovl,
+                     var.container(), U.random_forms(rng))
         if i % 16 == 7 and (st > 0 or en > 0 or sz > 0):
             # literal attributes; values <= 0 are written as absent attributes
             lit = (st if st > 0 else None, en if en > 0 else None, sz if sz > 0 else None,
@@ -408,9 +592,15 @@ def run(ctx, spec):
             if t is None:
                 if len(lit_cache) > 2000:
                     lit_cache.clear()
-                t = lit_cache[src] = HTML(src)
+                t = lit_cache[src] = U.T(HTML, src, literal=True, name='literal')
             ctx.count('literal-attribute renders')
-            check_window(ctx, mon, t, 'literal', n, st, en, sz, orp, ovl, 'list', literal_src=src)
+            check_window(ctx, mon, t, 'literal', n, st, en, sz, orp, ovl, 'list')
+        if (i // ctx.nshards) % 16 == 11:       # counted per shard, so every shard carries its share
+            # a random configuration: literal / variable / absent per parameter (values <= 0 also as literals),
+            # quoting, attribute order, sequence form, prefix spelling, layout, item kind
+            ctx.count('config:random configurations rendered')
+            check_window(ctx, mon, var.random((st, en, sz, orp, ovl)), 'config', n, st, en, sz, orp, ovl,
+                         var.container(), U.random_forms(rng))
     # traversals: every (length,size,orphan,overlap) with overlap < effective size
     tspace = itertools.product(g['length'], g['size'], g['orphan'], g['overlap'])
     for i, (n, sz, orp, ovl) in enumerate(tspace):
@@ -419,9 +609,12 @@ def run(ctx, spec):
         eff = sz if sz >= 1 else 7
         if ovl < eff:
             traverse(ctx, mon, tmpl, n, sz, orp, ovl, 'iter' if i % 5 == 0 else 'list')
+            if (i // ctx.nshards) % 2 == 0:
+                # the same walk on a variant template, the link fed back as text (or in a drawn form)
+                traverse(ctx, mon, var.pick((1, 0, sz, orp, ovl)), n, sz, orp, ovl, var.container(),
+                         rng.choice(['sssss', 'sssss', U.random_forms(rng)]))
     # seeded larger tuples
     nrand = (6000 if ctx.tier == 'quick' else 100000) // ctx.nshards
-    rng = ctx.rng
     for _ in range(nrand):
         n = rng.randint(0, 200)
         st = rng.choice([0, -3, rng.randint(1, 220), rng.randint(1, 220)])
@@ -431,33 +624,73 @@ def run(ctx, spec):
         ovl = rng.randint(0, 8)
         ctx.count('seeded larger tuples')
         check_window(ctx, mon, tmpl, 'rand', n, st, en, sz, orp, ovl, rng.choice(['list', 'iter']))
+        t = var.pick((st, en, sz, orp, ovl)) if rng.random() < 0.8 else var.random((st, en, sz, orp, ovl))
+        check_window(ctx, mon, t, 'variant' if t.name != 'random' else 'config', n, st, en, sz, orp, ovl,
+                     var.container(), U.random_forms(rng))
         if n and rng.random() < 0.05:
             eff = sz if sz >= 1 else 7
             if ovl < eff:
                 traverse(ctx, mon, tmpl, n, sz, orp, ovl, 'list')
+                traverse(ctx, mon, var.pick((1, 0, sz, orp, ovl)), n, sz, orp, ovl, 'list', U.random_forms(rng))
     if ctx.shard == 0:
         ctx.sample({'template': SRC_VARS[:120] + '...', 'namespace': dict(seq='[1..5]', st=2, en=0, sz=2, orp=1, ovl=1),
-                    'output': tmpl(seq=[1, 2, 3, 4, 5], st=2, en=0, sz=2, orp=1, ovl=1)})
+                    'output': tmpl.tmpl(seq=[1, 2, 3, 4, 5], st=2, en=0, sz=2, orp=1, ovl=1)})
+        for t in var.fixed[:12:3]:
+            ctx.sample({'variant': t.name, 'template': t.src,
+                        'namespace': dict(seq='[1..5]', st='2', en=0, sz='2', orp=1, ovl='1'),
+                        'output': t.tmpl(seq=U.make_seq(5, 'list', t.cfg['items']), inner=list(U.INNER),
+                                         st='2', en=0, sz='2', orp=1, ovl='1')})
     reach.stop()
     reach.report(ctx)
+
+
+DECIDING = (
+    # (counter, what is missing when it is zero) -- all output-level
+    ('window:rendered', 'no batch window was rendered and judged'),
+    ('window:asked with start&end', 'no window asked with start and end'),
+    ('window:asked with start only', 'no window asked with start only'),
+    ('window:asked with end only', 'no window asked with end only'),
+    ('window:asked with neither', 'no window asked with neither start nor end'),
+    ('links:next equation demanded', 'the next-batch equation was never demanded'),
+    ('links:previous equation demanded', 'the previous-batch equation was never demanded'),
+    ('traversals', 'no link traversal ran'),
+    ('variants:windows judged', 'no window was judged through a variant template'),
+    ('forms:re-render of one compiled template with a changed text value',
+     'no compiled template was re-rendered with a changed text-valued parameter'),
+    ('forms:renders with a callable-valued parameter', 'no callable-valued parameter was rendered'),
+    ('prefix:flags read through the prefix spelling on a window of >=2 elements with a neighbour',
+     'previous-/next-sequence were never read through the prefix spelling on a window with a neighbour'),
+    ('layout:sparse windows judged', 'the sparse body layout was never judged'),
+    ('layout:edge windows judged', 'the documented sequence-end/next-sequence idiom was never judged'),
+    ('layout:nested windows judged', 'the nested-batch body layout was never judged'),
+    ('layout:nestfault windows judged', 'the nested batch whose fault the body handles was never judged'),
+    ('config:random configurations rendered', 'no random configuration was rendered'),
+    ('config:renders with literal or absent attributes', 'no configuration with literal or absent attributes ran'),
+    ('traversals feeding the link back as text', 'no traversal fed the link back as text'),
+    ('modes:renders read through the prefix spelling', 'the previous/next forms were never read through a prefix'),
+    ('modes:renders with text-valued parameters', 'the previous/next forms never got text values'),
+)
 
 
 def finish(agg):
     c = agg['counters']
     inc = []
-    if not c.get('opt:postcondition_evaluations'):
-        inc.append('opt postcondition wrapper never evaluated')
-    for b in ('opt:branch start&end', 'opt:branch start only', 'opt:branch end only', 'opt:branch neither'):
-        if not c.get(b):
-            inc.append('opt branch never taken: ' + b)
-    for r in ('reach:DT_InSV.opt', 'reach:InClass.renderwb'):
-        if not c.get(r):
-            inc.append('anchor never entered: ' + r)
+    for key, why in DECIDING:
+        if not c.get(key):
+            inc.append(why)
     for m in ('previous', 'next'):
         if not c.get('modes:%s batch announced' % m):
             inc.append('the %s attribute form never announced a batch' % m)
-    if not c.get('traversals'):
-        inc.append('no link traversal ran')
+    names = [name for name, _ in U.designed_cfgs()]
+    judged = agg.get('tables', {}).get('variant windows judged', {})
+    for name in names:
+        if not judged.get(name):
+            inc.append('variant template never judged: ' + name)
+    # engine-internal monitors: diagnosis, never the reason for an inconclusive verdict
+    diag = {}
+    for k in ('opt:postcondition_evaluations', 'opt:branch start&end', 'opt:branch start only',
+              'opt:branch end only', 'opt:branch neither', 'reach:DT_InSV.opt', 'reach:InClass.renderwb'):
+        diag[k] = c.get(k, 0)
     g = GRID[agg['tier']]
     size = 1
     for v in g.values():
@@ -465,7 +698,30 @@ def finish(agg):
     return {'inconclusive': inc,
             'coverage': {'exhaustive': True, 'grid': {k: [v[0], v[-1]] for k, v in g.items()},
                          'grid_points': size,
-                         'explanation': 'exhaustive over the stated grid; the seeded larger tuples are extra'}}
+                         'variant_templates': names,
+                         'internal_monitors_diagnosis_only': diag,
+                         'explanation': 'exhaustive over the stated grid (main template, int values); every grid '
+                                        'point once more through a drawn variant template and value form; the '
+                                        'random configurations and the seeded larger tuples are extra'}}
+
+
+def rebuild(HTML, c):
+    """The template of a recorded case, with its earlier calls repeated (history-dependent faults)."""
+    if c.get('cfg') is not None:
+        t = U.T(HTML, c['src'], cfg=c['cfg'], name=c.get('variant', 'replay'))
+    elif c.get('src'):
+        t = U.T(HTML, c['src'], literal=True, name='literal')
+    else:
+        t = U.T(HTML, SRC_VARS)
+    for h in c.get('history', []):
+        kind = t.cfg['items'] if t.cfg else 'int'
+        try:
+            render(t, U.make_seq(h['length'], h['container'], kind), tuple(h['vals']), h['forms'])
+        except Exception:
+            pass
+        t.hist.append(h)
+        t.renders += 1
+    return t
 
 
 def replay(ctx, rep):
@@ -473,12 +729,13 @@ def replay(ctx, rep):
     mon = OptMonitor(ctx)
     mon.install()
     c = rep['case']
-    mon.mode_templates = {m: HTML(src) for m, src in SRC_MODE.items()}
+    mon.mode_templates = make_mode_templates(HTML)
     if c.get('mode') in ('previous', 'next'):
         c = dict(c, mode='vars')        # the plain rendering is re-run first; it calls the attribute forms
+    t = rebuild(HTML, c)
     if c.get('mode') == 'traverse':
-        traverse(ctx, mon, HTML(SRC_VARS), c['length'], c['size'], c['orphan'], c['overlap'], c['container'])
+        traverse(ctx, mon, t, c['length'], c['size'], c['orphan'], c['overlap'], c['container'],
+                 c.get('forms', 'iiiii'))
         return
-    tmpl = HTML(c['src']) if c.get('src') else HTML(SRC_VARS)
-    check_window(ctx, mon, tmpl, c['mode'], c['length'], c['start'], c['end'], c['size'],
-                 c['orphan'], c['overlap'], c['container'], literal_src=c.get('src'))
+    check_window(ctx, mon, t, c['mode'], c['length'], c['start'], c['end'], c['size'],
+                 c['orphan'], c['overlap'], c['container'], c.get('forms', 'iiiii'))
